@@ -398,4 +398,189 @@ Section P.
   Proof.
     intros v t fuel k Hdrop Hg Hty Hd Hk. apply sig_read_prefix_gen; try assumption. lia.
   Qed.
+
+  (* ---------- refl_dec ---------- *)
+  Section ReflStrict.
+    Variable eqb : tval -> tval -> bool.
+    Hypothesis Hign : refl_struct_ignores_err c = false.
+    Hypothesis Hd8 : refl_drop8 c = false.
+
+    Lemma refl_dec_num s w bs :
+      scalar_width s = Some w ->
+      refl_dec c eqb (TS s) bs = (do '(n, r) <- read_num w bs; ROk (VNum w n, r)).
+    Proof.
+      intro Hw. destruct s; cbn [scalar_width] in Hw; try discriminate; injection Hw as Hw; subst w;
+        unfold refl_dec; cbn [refl_body scalar_width]; try rewrite Hd8; reflexivity.
+    Qed.
+
+    Lemma fields_with_seq ps bs : fields_with c ps bs = seq_with (map fst ps) bs.
+    Proof.
+      revert bs. induction ps as [|[p z] ps IH]; intro bs; [reflexivity|].
+      cbn [fields_with map fst seq_with]. rewrite Hign.
+      destruct (p bs) as [[x r]|l| |]; try reflexivity. rewrite IH. reflexivity.
+    Qed.
+
+    Lemma refl_dec_tuple ts bs :
+      refl_dec c eqb (TTuple ts) bs =
+      (do '(l, r) <- seq_with (map (refl_dec c eqb) ts) bs; ROk (VTup l, r)).
+    Proof.
+      unfold refl_dec. cbn [refl_body]. rewrite fields_with_seq, map_map. cbn [fst]. reflexivity.
+    Qed.
+
+    Lemma refl_dec_struct n fs bs :
+      refl_dec c eqb (TStruct n fs) bs =
+      (do '(l, r) <- seq_with (map (fun f => refl_dec c eqb (snd f)) fs) bs; ROk (VTup l, r)).
+    Proof.
+      unfold refl_dec. cbn [refl_body]. rewrite fields_with_seq, map_map. cbn [fst]. reflexivity.
+    Qed.
+
+    Lemma as_int32_small n :
+      (n <= listValueMaxSize)%N ->
+      (Z.of_N listValueMaxSize <? as_int32 n)%Z = false /\ (as_int32 n <? 0)%Z = false.
+    Proof.
+      intro Hn. unfold as_int32, listValueMaxSize in *.
+      replace (n <? 2 ^ 31)%N with true
+        by (symmetry; apply N.ltb_lt; change (2 ^ 31)%N with 2147483648%N; lia).
+      split; [apply Z.ltb_ge|apply Z.ltb_ge]; lia.
+    Qed.
+
+    Lemma refl_counted {A} B (p : bytes -> res (A * bytes)) (K : list A -> tval)
+        (neg : bytes -> res (tval * bytes)) n es :
+      n = N.of_nat (List.length es) -> (n <= listValueMaxSize)%N -> Forall (elem_ok B p) es ->
+      let q := fun bs =>
+        do '(m, r) <- read_num 4 bs;
+        let l := as_int32 m in
+        if (Z.of_N listValueMaxSize <? l)%Z then RErr r
+        else if (l <? 0)%Z then neg r
+        else do '(xs, r') <- rep p m r; ROk (K xs, r') in
+      eats B q (enc_u32 n ++ concat es) /\ strict B q (enc_u32 n ++ concat es).
+    Proof.
+      intros Hn Hle Hes q. subst q. destruct (as_int32_small n Hle) as [Hbig Hneg].
+      assert (Hlt : (n < 2 ^ 32)%N)
+        by (unfold listValueMaxSize in Hle; change (2 ^ 32)%N with 4294967296%N; lia).
+      split.
+      - intros rest Hlen. cbv beta. rewrite <- app_assoc, (read_u32_enc n _ Hlt). cbn [bind]. cbv zeta.
+        rewrite Hbig, Hneg.
+        destruct (rep_eats B p es Hes rest) as [xs Hxs].
+        { rewrite !app_length in Hlen. rewrite app_length. lia. }
+        subst n. rewrite Hxs. cbn [bind]. eexists. reflexivity.
+      - intros k Hk HB. cbv beta.
+        destruct (read_u32_trunc n _ k Hlt Hk) as [[Hlt4 Hr]|[Hge [Hk' Hr]]];
+          rewrite Hr; cbn [bind]; [apply fails_err|]. cbv zeta. rewrite Hbig, Hneg.
+        apply fails_bind. subst n. apply (rep_strict B p es Hes); [exact Hk'|lia].
+    Qed.
+
+    Definition RQ (v : tval) : Prop :=
+      forall t B, wfz t = true -> has_ty v t = true -> refl_domain t = true -> lens_ok v = true ->
+        eats B (refl_dec c eqb t) (spec_enc v) /\ strict B (refl_dec c eqb t) (spec_enc v).
+
+    Lemma refl_members {T} (proj : T -> ty) B l (ts : list T) :
+      Forall RQ l -> Forall2 (fun x t => has_ty x (proj t) = true) l ts ->
+      forallb (fun t => wfz (proj t)) ts = true ->
+      forallb (fun t => refl_domain (proj t)) ts = true ->
+      forallb lens_ok l = true ->
+      all2 B (map (fun t => refl_dec c eqb (proj t)) ts) (map spec_enc l).
+    Proof.
+      intros IH HF Hwz Hdom Hlens. apply all2_of_Forall2.
+      apply (forallb_Forall2_r _ _ _ _ Hwz) in HF.
+      apply (forallb_Forall2_r _ _ _ _ Hdom) in HF.
+      assert (HL : Forall (fun x => lens_ok x = true) l)
+        by (apply Forall_forall; exact (proj1 (forallb_forall lens_ok l) Hlens)).
+      apply (Forall2_Forall_l _ _ _ _ HL) in HF.
+      revert HF. apply Forall2_mp. eapply Forall_impl; [|exact IH].
+      intros x Hx t [Hlx [[Hty Hw] Hdm]]. apply Hx; assumption.
+    Qed.
+
+    Lemma num_leaf B w b (g : N -> tval) :
+      (b < 2 ^ (8 * N.of_nat w))%N ->
+      let q := fun bs => do '(n, r) <- read_num w bs; ROk (g n, r) in
+      eats B q (le w b) /\ strict B q (le w b).
+    Proof.
+      intros Hb q. subst q. split.
+      - apply (eats_map B (read_num w) g). intros rest Hlen. exists b. apply read_num_le. exact Hb.
+      - apply (strict_map B (read_num w) g). apply read_num_strict.
+    Qed.
+
+    Lemma refl_dec_strict : forall v, RQ v.
+    Proof.
+      induction v as [w b|b|s|l IH|kvs IH|l IH|t' v IH] using tval_ind2;
+        intros t B Hwz Hty Hdom Hlens.
+      - apply has_ty_VNum in Hty as (s & Ht & Hw & Hb). subst t.
+        apply (both_ext B _ _ _ (fun bs => refl_dec_num s w bs Hw)).
+        exact (num_leaf B w b (VNum w) Hb).
+      - apply has_ty_VBool in Hty. subst t.
+        destruct b; [exact (num_leaf B 1 1 (fun n => VBool (negb (n =? 0)%N)) eq_refl)
+                    |exact (num_leaf B 1 0 (fun n => VBool (negb (n =? 0)%N)) eq_refl)].
+      - apply has_ty_VStr in Hty as [Ht Hs]. subst t. split.
+        + apply (eats_map B read_str VStr). apply (exact_eats B read_str s). apply read_str_exact. exact Hs.
+        + apply (strict_map B read_str VStr). apply read_str_strict. exact Hs.
+      - apply has_ty_VList in Hty as (t' & Ht & Hn & HF). subst t.
+        cbn [wfz] in Hwz. apply andb_true_iff in Hwz as [Hmw Hwz']. apply Nat.leb_le in Hmw.
+        cbn [refl_domain] in Hdom. cbn [lens_ok] in Hlens. apply andb_true_iff in Hlens as [Hle Hl].
+        apply N.leb_le in Hle. cbn [spec_enc]. rewrite flat_map_concat_map.
+        refine (refl_counted B (refl_dec c eqb t') VList
+                  (fun r => if refl_neg_len_panics c then RPanic else RErr r)
+                  _ (map spec_enc l) _ Hle _); [now rewrite map_length|].
+        apply Forall_map. apply Forall_forall. intros x Hin. rewrite Forall_forall in IH, HF.
+        destruct (IH x Hin t' B Hwz' (HF x Hin) Hdom (proj1 (forallb_forall lens_ok l) Hl x Hin)) as [He Hs].
+        split; [exact He|split; [exact Hs|]].
+        pose proof (min_width_le_len x t' (HF x Hin)) as Hm. lia.
+      - apply has_ty_VMap in Hty as (tk & tv & Ht & Hn & HF). subst t.
+        cbn [wfz] in Hwz. apply andb_true_iff in Hwz as [Hwz Hwv]. apply andb_true_iff in Hwz as [Hmw Hwk].
+        apply Nat.leb_le in Hmw.
+        cbn [refl_domain] in Hdom. apply andb_true_iff in Hdom as [Hdk Hdv].
+        cbn [lens_ok] in Hlens. apply andb_true_iff in Hlens as [Hle Hl]. apply N.leb_le in Hle.
+        cbn [spec_enc]. rewrite flat_map_concat_map.
+        refine (refl_counted B (pair_with (refl_dec c eqb tk) (refl_dec c eqb tv))
+                  (fun kvs' => VMap (map_of eqb kvs')) (fun r => ROk (VMap [], r))
+                  _ (map (fun kv : tval * tval => spec_enc (fst kv) ++ spec_enc (snd kv)) kvs) _ Hle _);
+          [now rewrite map_length|].
+        apply Forall_map. apply Forall_forall. intros kv Hin. rewrite Forall_forall in IH, HF.
+        destruct (IH kv Hin) as [IHk IHv]. destruct (HF kv Hin) as [Htk Htv].
+        pose proof (proj1 (forallb_forall _ kvs) Hl kv Hin) as Hlkv. apply andb_true_iff in Hlkv as [Hlk Hlv].
+        destruct (IHk tk B Hwk Htk Hdk Hlk) as [Hek Hsk].
+        destruct (IHv tv B Hwv Htv Hdv Hlv) as [Hev Hsv].
+        split; [|split].
+        + apply pair_with_eats; assumption.
+        + apply pair_with_strict; assumption.
+        + pose proof (min_width_le_len _ _ Htk) as Hm1. pose proof (min_width_le_len _ _ Htv) as Hm2.
+          rewrite app_length. lia.
+      - cbn [lens_ok] in Hlens.
+        assert (Hstruct : forall n fs, wfz (TStruct n fs) = true -> refl_domain (TStruct n fs) = true ->
+                  Forall2 (fun x f => has_ty x (snd f) = true) l fs ->
+                  eats B (refl_dec c eqb (TStruct n fs)) (spec_enc (VTup l)) /\
+                  strict B (refl_dec c eqb (TStruct n fs)) (spec_enc (VTup l))).
+        { intros n fs Hwz' Hdom' HF. apply (both_ext B _ _ _ (refl_dec_struct n fs)).
+          cbn [spec_enc]. rewrite flat_map_concat_map. cbn [wfz] in Hwz'. cbn [refl_domain] in Hdom'.
+          pose proof (refl_members (@snd string ty) B l fs IH HF Hwz' Hdom' Hlens) as Hall. split.
+          - exact (eats_map B _ VTup _ (seq_with_eats B _ _ Hall)).
+          - exact (strict_map B _ VTup _ (seq_with_strict B _ _ Hall)). }
+        apply has_ty_VTup in Hty as [(ts & Ht & HF)|[(n & fs & Ht & HF)|[[Ht Hl]|[Ht Ho]]]]; subst t.
+        + apply (both_ext B _ _ _ (refl_dec_tuple ts)).
+          cbn [spec_enc]. rewrite flat_map_concat_map. cbn [wfz] in Hwz. cbn [refl_domain] in Hdom.
+          pose proof (refl_members (fun t => t) B l ts IH HF Hwz Hdom Hlens) as Hall. split.
+          * exact (eats_map B _ VTup _ (seq_with_eats B _ _ Hall)).
+          * exact (strict_map B _ VTup _ (seq_with_strict B _ _ Hall)).
+        + apply Hstruct; assumption.
+        + subst l. split.
+          * intros rest Hlen. exists (VTup []). reflexivity.
+          * intros k Hk HB. cbn in Hk. lia.
+        + change (refl_dec c eqb (TS SObject)) with (refl_dec c eqb ty_ObjectReference).
+          unfold ty_ObjectReference. apply Hstruct; [exact wfz_ObjectReference|reflexivity|].
+          apply has_ty_struct_iff with (n := "ObjectReference"%string). exact Ho.
+      - apply has_ty_VDyn in Hty as (Ht & _). subst t. cbn in Hdom. discriminate.
+    Qed.
+  End ReflStrict.
+
+  (* refl_neg_len_panics is not used: with the count intact the length is never negative;
+     keys_nodup is not needed either (the decoded map is irrelevant to what is consumed) *)
+  Theorem refl_dec_prefix : forall v t k,
+    refl_struct_ignores_err c = false -> refl_neg_len_panics c = false -> refl_drop8 c = false ->
+    good_ty t = true -> has_ty v t = true -> refl_domain t = true -> lens_ok v = true ->
+    k < List.length (spec_enc v) -> fails (refl_dec c tval_eqb t (firstn k (spec_enc v))).
+  Proof.
+    intros v t k Hign _ Hd8 Hg Hty Hdom Hlens Hk.
+    destruct (refl_dec_strict tval_eqb Hign Hd8 v t (S k) (good_ty_wfz t Hg) Hty Hdom Hlens) as [_ Hst].
+    apply Hst; [exact Hk|lia].
+  Qed.
 End P.
